@@ -48,7 +48,16 @@ class Connection:
             "Line: {}\n".format(str(self))+
             "The identifier is used by other lines "+
             "for a line of record type {}".format(previous.record_type))
-        return self._substitute_virtual_line(previous)
+        try:
+          return self._substitute_virtual_line(previous)
+        except:
+          if self._gfa is not None and self._gfa.line(self.name) is not self:
+            # the line is refused (the placeholder stays): as below
+            self._remove_field_backreferences()
+            self._remove_field_references()
+            self._refs = {}
+            self._gfa = None
+          raise
       else:
         return self._process_not_unique(previous)
     else:
